@@ -71,6 +71,10 @@ type FS struct {
 	crashed   map[string]bool
 	tmpCount  int
 	Quiet     bool // do not emit trace events (used while building the initial tree)
+
+	// AfterOp, when set, runs after every recorded call (the harness checks
+	// its invariants at every instant of the file-system history here).
+	AfterOp func(op *Op)
 }
 
 type mount struct {
@@ -336,6 +340,9 @@ func (g *gate) record() {
 			out = "fault:" + g.op.Fault
 		}
 		f.run.Event("fs."+g.op.Op, out, fmt.Sprintf("%s %s n=%d %s", g.op.Path, g.op.Path2, g.op.N, g.op.Err))
+	}
+	if f.AfterOp != nil {
+		f.AfterOp(&f.History[len(f.History)-1])
 	}
 }
 
